@@ -295,6 +295,20 @@ Proof. exact LexLinkTH2.hsh_lex_chain. Qed.
 Theorem C02_holographic_chains_oracle_clause_holds : LexLinkTH2.cls_and_ok ex_cls = true.
 Proof. exact LexLinkTH2Ex.ex_cls_and_ok. Qed.
 
+(* ... with the shape oracle "lex the raw text alone" and a purely textual side condition (Rt/LexLinkTH3.v) *)
+From OV Require Rt.LexLinkTH3 Rt.LexLinkTH3Ex.
+Theorem C02_text_roundtrip_holographic_chains_lex :
+  forall cls numcanon holo_ok strict sp d,
+    LexLinkTH2.coreth2_doc d = true -> LexLinkTH2.lex_safeth2_doc cls LexLinkTH3.hsh_cls2 d = true ->
+    TokRoundTHolo.nodes_side numcanon holo_ok ex_idnum (TokRoundTEx.hsh_lex cls) (dsections d) -> Forall (TokRoundT.field_num_ok numcanon) (dmeta d) ->
+    exists warns, parse_model cls numcanon holo_ok strict (lines_of (emit sp d)) = PRDoc d [] warns /\ Forall advisory warns.
+Proof. exact LexLinkTH3.text_roundtrip_coreth2_lex. Qed.
+(* chains ending in a section target  ["s"/\W1 ... /\Wn->§T] : lexed alone and inside a document line the same tokens *)
+Theorem C02_holographic_target_chain_lexed_alone_same_shape :
+  forall cls s ws T, LexLinkTH2.cls_and_ok cls = true -> LexLinkTH3.cls_flow_ok cls = true -> LexLinkTH2.chain_ok ws = true -> LexLinkSteps.key_ok T = true ->
+    TokRoundTEx.hsh_lex cls (LexLinkTH3.chainT_text s ws T) = LexLinkTH3.chainT_shape s ws T.
+Proof. exact LexLinkTH3.hsh_lex_chainT. Qed.
+
 (* ---- source-text pins (generated by harness/pinsets.py) ---- *)
 (* every function of these modules is, text for text (comments and docstrings excluded), the one the models of this
    property were written against and validated against: harness/translate/srcdigest_t.py, Src/Pin_*.v *)
